@@ -524,9 +524,11 @@ def threads_stage(prop, tier, seed, races=6, race_threads=8):
         for h in hist:
             fh.write(json.dumps(h) + "\n")
     # reference: each call alone, in its own fresh single-threaded process
-    refp = os.path.join(wd, "ref.ndjson")
-    vlib.run_harness(["threads", "--reference", "--out", refp])
-    ref_lines = open(refp).read()
+    ref_lines = ""
+    for c in range(11):
+        refp = os.path.join(wd, f"ref{c}.ndjson")
+        vlib.run_harness(["threads", "--reference", str(c), "--out", refp])
+        ref_lines += open(refp).read()
     files = []
     hp_out = os.path.join(wd, "hist_trace.ndjson")
     vlib.run_harness(["threads", "--histories", hp, "--out", hp_out], timeout=3000)
